@@ -82,7 +82,47 @@ def run_net(seeds, rule_texts, limit):
     return out, res
 
 
+FAULT_RULES = {
+    # a rule text nobody can read (neither RING nor reaction SMARTS)
+    'garbage': 'this is not a rule',
+    'bad_smarts': '[C:1][H:2>>[C:1].[H:2]',
+    # a readable RING rule whose last step cannot be applied to an atom
+    # without radicals: applying it to a closed-shell C-C bond fails midway
+    'fails_midway': 'rule up{ reactant r1{ C? labeled c1 C? labeled c2 single '
+                    'bond to c1 } increase bond order (c1, c2) decrease '
+                    'number of radical (c1) decrease number of radical (c2) }',
+}
+
+
+def check_fault_case(case):
+    """A call that cannot succeed (unreadable rule, or a rule that fails
+    midway on the seed): it must raise -- not return a network -- and must
+    not leave anything behind that changes later calls."""
+    seeds = list(case['seeds'])
+    texts = [nm.RULES[r]['smarts'] or nm.RULES[r]['ring']
+             for r in case['rules']]
+    texts.insert(case.get('pos', len(texts)) % (len(texts) + 1),
+                 FAULT_RULES[case['fault']])
+    out, res = run_net(seeds, texts, 5000000)
+    viols = []
+    if out['kind'] == 'hang':
+        viols.append(core.violation(
+            PROP, 'termination', 'hang', 'no-termination-on-failing-call|%s:%s'
+            % tuple(out['where']), {'case': case}))
+    elif res is not None:
+        from rdkit import Chem
+        viols.append(core.violation(
+            PROP, 'failing-call', 'returned-a-network',
+            'failing-call-returned-a-network|%s' % case['fault'],
+            {'case': case, 'returned': [Chem.MolToSmiles(m)
+                                        for m in res][:8]}))
+    return ['fault', case['fault'], out.get('exc')], viols, \
+        {'n': 0, 'steps': out.get('steps'), 'fault': case['fault']}
+
+
 def check_case(case):
+    if case.get('fault'):
+        return check_fault_case(case)
     """case: {'seeds': [...], 'rules': [names], 'form': 'smarts'|'ring',
     'spell': [k per seed]}.  Returns (event, violations, info)."""
     from rdkit import Chem
@@ -183,6 +223,20 @@ def gen_group(run_seed):
         cases.append({'seeds': ss, 'rules': rs, 'forms': forms,
                       'spell': [0 if i == 0 else rng.randrange(1, 1000)
                                 for _ in ss]})
+        if rng.random() < 0.3:
+            # a call that fails, between two schedules of the same network
+            fault = rng.choice(['garbage', 'bad_smarts', 'fails_midway'])
+            fseeds = list(ss)
+            if fault == 'fails_midway':
+                closed = [m for m in LARGE + SMALL if m in
+                          ('CC', 'CCC', 'CCCC', 'CC(C)C', 'CCO', 'CC(C)O',
+                           'OCCO', 'CC=C')]
+                fseeds = [rng.choice(closed)] + fseeds[:1]
+            cases.append({'seeds': fseeds, 'rules': list(rs), 'fault': fault,
+                          'pos': rng.randrange(5), 'spell': [0] * len(fseeds)})
+    if cases[-1].get('fault'):
+        # always a good call after the failing one
+        cases.append(dict(cases[0]))
     return {'id': 'g%d' % run_seed, 'cases': cases}
 
 
@@ -233,7 +287,7 @@ def execute_group(group):
     log = core.EventLog()
     viols = []
     stats = {'calls': 0, 'steps': 0, 'max_closure': 0, 'escalations': 0,
-             'ring_rule_calls': 0}
+             'ring_rule_calls': 0, 'faults': {}}
     setdigs = {}
     first_case = {}
     for ci, case in enumerate(group['cases']):
@@ -243,6 +297,9 @@ def execute_group(group):
         stats['max_closure'] = max(stats['max_closure'], info.get('n') or 0)
         if info.get('escalated'):
             stats['escalations'] += 1
+        if info.get('fault'):
+            stats['faults'][info['fault']] = \
+                stats['faults'].get(info['fault'], 0) + 1
         if 'ring' in (case.get('forms') or [case.get('form')]):
             stats['ring_rule_calls'] += 1
         log.add('call', i=ci, case=case, ev=ev)
@@ -290,6 +347,7 @@ def run_task(task):
             'nontrivial': stats['max_closure'] >= 3,
             'shape': core.digest([sorted(g['cases'][0]['seeds']),
                                   sorted(g['cases'][0]['rules'])])[:16],
+            'faults': stats['faults'],
             'schedules': len(g['cases']),
             'sample': {'id': g['id'], 'cases': g['cases'][:3],
                        'closure_size': stats['max_closure']}})
@@ -302,7 +360,10 @@ def summarise(results):
     sched = set()
     nx = 0
     mx = 0
+    faults = {}
     for r in results:
+        for k, v in r.get('faults', {}).items():
+            faults['failing-call:' + k] = faults.get('failing-call:' + k, 0) + v
         calls += r['stats']['calls']
         steps += r['stats']['steps']
         esc += r['stats']['escalations']
@@ -331,9 +392,9 @@ def summarise(results):
         'largest_reference_closure': mx,
         'calls_with_RING_text_rules': ring,
         'budget_escalations': esc,
-        'faults_fired': {'schedule-perturbation:rule-order': calls,
-                         'note': 'the "faults" of this machine are schedule '
-                         'perturbations; no I/O is involved'},
+        'faults_fired': dict(faults, **{
+            'schedule-perturbations (rule/seed/atom order, rule text form)':
+            calls}),
         'simulated_time': {'unit': 'python LINE steps in GenRxnNet.py / '
                            'ReactionQuery.py', 'total': steps},
     }
